@@ -4,6 +4,10 @@
 (*   ev = "rt":   rec (wire form), kind, origin, text, res (what the        *)
 (*                library's reader returned), eq (the library found the     *)
 (*                record equal)                                             *)
+(*   ev = "zone": recs (wire forms), kinds, mode ("cat" one writer per       *)
+(*                record / "fmt" one FormatWriter with newline()), cfg       *)
+(*                (origin, dclass, allow), ctor (how the reader was set up), *)
+(*                text, res                                                  *)
 (* Checked per event: (a) the reader machine of ZoneFile.tla, given the     *)
 (* library's text, returns the recorded outcome; (b) that outcome is the    *)
 (* record that was written -- unless the specification's own reader says    *)
@@ -46,10 +50,28 @@ RoundTripOk(e) ==
      /\ Triggered(e) \cap OpenDevs # {}            \* ... and the record is one a writer deviation applies to
      /\ PrintT("TRACE_DEV " \o ToJson([devs |-> Triggered(e) \cap OpenDevs, kind |-> e.kind, text |-> e.text]))
 
+\* --- zones: the configured reader machine explains what the library read,
+\* and that is what the property demands of the records written
+ZoneReaderOk(e) ==
+  LET o == ReadCfg(e.text, e.cfg, {}) IN
+  \/ o = Unmodelled \/ o = e.res
+  \/ \E dv \in (SUBSET (OpenDevs \cap AllDevs)) \ {{}} :
+        LET d == ReadCfg(e.text, e.cfg, dv) IN d = Unmodelled \/ d = e.res
+ZoneTriggered(e) ==
+  UNION {Triggered([rec |-> e.recs[i], kind |-> e.kinds[i]]) : i \in 1..Len(e.recs)}
+ZoneRoundTripOk(e) ==
+  LET o == ReadCfg(e.text, e.cfg, {})
+      want == ExpectedEntries(e.recs, e.cfg) IN
+  \/ e.res = want
+  \/ /\ o # Unmodelled /\ o # want
+     /\ ZoneTriggered(e) \cap OpenDevs # {}
+     /\ PrintT("TRACE_DEV " \o ToJson([devs |-> ZoneTriggered(e) \cap OpenDevs, kind |-> e.mode, text |-> e.text]))
+
 TInit == l = 1
 T_Devs == IsEv("devs")
 T_Rt == IsEv("rt") /\ ReaderOk(Rec[l]) /\ RoundTripOk(Rec[l])
-TNext == T_Devs \/ T_Rt
+T_Zone == IsEv("zone") /\ ZoneReaderOk(Rec[l]) /\ ZoneRoundTripOk(Rec[l])
+TNext == T_Devs \/ T_Rt \/ T_Zone
 TSpec == TInit /\ [][TNext]_tvars
 
 Accepted ==
